@@ -15,6 +15,8 @@ def to_jv(v):
     if isinstance(v, bool): return {"t": "b", "v": v}
     if isinstance(v, str): return {"t": "s", "b": list(v.encode("utf-8"))}
     if isinstance(v, int): return {"t": "n", "int": True, "neg": v < 0, "hi": abs(v) >> 16, "lo": abs(v) & 0xffff}
+    if isinstance(v, float) and v.is_integer() and abs(v) < 2 ** 32:      # schemars writes bounds as 0.0, 1.0, 255.0
+        i = int(v); return {"t": "n", "int": True, "neg": i < 0, "hi": abs(i) >> 16, "lo": abs(i) & 0xffff}
     if isinstance(v, float): return {"t": "n", "int": False, "neg": v < 0, "hi": 0, "lo": 0}
     if isinstance(v, list): return {"t": "a", "v": [to_jv(x) for x in v]}
     return {"t": "o", "k": list(v.keys()), "v": [to_jv(x) for x in v.values()]}
